@@ -10,6 +10,7 @@ mod ptrace;
 mod sim;
 mod c_node;
 mod c_confchange;
+mod monitor;
 mod c_raftlog;
 
 fn main() {
@@ -26,6 +27,7 @@ fn main() {
         "memstorage" => c_memstorage::main(rest),
         "node" => c_node::main(rest),
         "confchange" => c_confchange::main(rest),
+        "monitor" => monitor::main(rest),
         "raftlog" => c_raftlog::main(rest),
         other => {
             eprintln!("unknown component {}", other);
